@@ -143,6 +143,31 @@ def forwardTerminal (P : OCP α) (v : OCPVars) (DN : Box α) (μ y : Vec α) (s 
 def forward (P : OCP α) (v : OCPVars) (D DN : Box α) (μ y : Vec α) (st : Vec α) : Vec α × α :=
   forwardTerminal P v DN μ y ((List.range v.N).foldl (forwardStage P v D μ y) (st, 0))
 
+/-! ### `OCPEvaluator::forward_simulate(storage)` -/
+
+/-- body of the loop of `forward_simulate`: `eval_h` (`nh > 0`), `eval_constr` (`nc > 0`), `eval_f`;
+    no cost is accumulated and neither `D`, `μ` nor `y` is read. -/
+def simStage (P : OCP α) (v : OCPVars) (st : Vec α) (t : Nat) : Vec α :=
+  let st1 := if v.nh > 0 then
+      setSeg st (v.hkStart t)
+        (P.h t (getSeg st (v.xkStart t) (v.xkLen t)) (getSeg st (v.ukStart t) (v.ukLen t)))
+    else st
+  let st2 := if v.nc > 0 then
+      setSeg st1 (v.ckStart t) (P.c t (getSeg st1 (v.xkStart t) (v.xkLen t)))
+    else st1
+  setSeg st2 (v.xkStart (t + 1))
+    (P.f t (getSeg st2 (v.xkStart t) (v.xkLen t)) (getSeg st2 (v.ukStart t) (v.ukLen t)))
+
+/-- `OCPEvaluator::forward_simulate(storage)`: the roll-out `panoc-ocp.tpp` runs before a
+    `backward` whose cost it does not need (`initial_lipschitz_estimate`). -/
+def forwardSimulate (P : OCP α) (v : OCPVars) (st : Vec α) : Vec α :=
+  let s := (List.range v.N).foldl (simStage P v) st
+  let N := v.N
+  let s1 := if v.nh_N > 0 then
+      setSeg s (v.hkStart N) (P.hN (getSeg s (v.xkStart N) (v.xkLen N)))
+    else s
+  if v.nc_N > 0 then setSeg s1 (v.ckStart N) (P.cN (getSeg s1 (v.xkStart N) (v.xkLen N))) else s1
+
 /-! ### `OCPEvaluator::backward` -/
 
 /-- `λ`, `q_N` after the terminal part of `backward`. -/
